@@ -74,6 +74,11 @@ func c18Cases(quick bool) []EnumCase {
 								k.Admin = true
 								out = append(out, mkCase(k.name(), k))
 								k.Admin = false
+								if wills <= 2 {
+									k.DudWill = "will-option-twice" // the first will line carries the WILL option twice
+									out = append(out, mkCase(k.name(), k))
+									k.DudWill = ""
+								}
 							}
 							if !text && wills >= 1 && at == "before-grant" && rc == "no" {
 								for _, dud := range []string{"unlock-unused-db", "lock-db255", "unlock-missing-key"} {
@@ -141,7 +146,11 @@ func evalC18(c *Ctx, cs EnumCase) EnumResult {
 			_ = v.Send(wire.Resp("LOCK", "\x00\x00\x00\x00\x00\x00\x00\x00\x00\x00\x00\x00\x00\x00\x00\x01", "LOCK_ID", "v1", "TIMEOUT", "0", "EXPRIED", "8"))
 			v.TakeText()
 			for i := 0; i < k.Wills; i++ {
-				_ = v.Send(wire.Resp("LOCK", fmt.Sprintf("will%d", i), "LOCK_ID", "w", "TIMEOUT", "0", "EXPRIED", "30", "RCOUNT", "6", "WILL", "1"))
+				args := []string{"LOCK", fmt.Sprintf("will%d", i), "LOCK_ID", "w", "TIMEOUT", "0", "EXPRIED", "30", "RCOUNT", "6", "WILL", "1"}
+				if k.DudWill == "will-option-twice" && i == 0 {
+					args = append(args, "WILL", "1")
+				}
+				_ = v.Send(wire.Resp(args...))
 				v.TakeText()
 			}
 		} else {
@@ -185,6 +194,13 @@ func evalC18(c *Ctx, cs EnumCase) EnumResult {
 		t0 := vrt.Elapsed()
 		if len(holdersOf(10)) != 0 {
 			add("will-ran-before-close", "a registered will command was executed while its connection was still open")
+		}
+		if k.Text {
+			for i := 0; i < k.Wills; i++ {
+				if ks := node.Snapshot().Key(0, normKey(fmt.Sprintf("will%d", i))); ks != nil && len(ks.Holds) != 0 {
+					add("will-ran-before-close", fmt.Sprintf("text will %d was executed while its connection was still open", i))
+				}
+			}
 		}
 		// when does the connection end?
 		var closeT int64
